@@ -738,7 +738,7 @@ def check_timecodec(pid, tier, seed, scratch, replay):
                        "complete in each field and in every carry pair (exhaustive=false)",
                        "TimeCodec's own laws (canonical, not-after, fixed point, monotone) are model-checked on 252000 instants in every run"]
     drive = vlib.build_harness(scratch)
-    fmts = ["srt", "vtt", "ttml", "ssa", "stl25", "stl30"]
+    fmts = ["srt", "vtt", "ttml", "ssa", "stl25", "stl30", "stl25tcp", "stl30tcp"]
     parts = 3 if thorough else 1
     jobs = [(f, p) for f in fmts for p in range(parts)]
 
